@@ -36,7 +36,7 @@ COMPONENTS_REAL = ["geneticengine.random.sources.NativeRandomSource", "geneticen
 COMPONENTS_STUB = ["set iteration order (OrderedSimSet) in process; real in the fresh-interpreter stratum", "time.monotonic_ns (SimClock)", "fitness (structural hash of the program)"]
 ASSUMPTIONS = ["wall-clock budgets are excepted by the property; TimeBudget only appears under the simulated clock with a limit that never fires"]
 
-FEAT = features(list=2, annlist=2, union=1, tuple=1, nested=1, standalone=1, cls=8, refined=3, weights=1, dependent=2)
+FEAT = features(list=2, annlist=2, union=1, tuple=1, nested=1, standalone=1, cls=8, refined=3, weights=1, dependent=2, future_annotations=1)
 
 
 def budget(tier):
@@ -256,18 +256,26 @@ def run(ctx):
                             c2["fields"][i] = [c["fields"][i][0], new]
                     set_order_seed(s1)
                     reset_gene_read_cap(200000)
-                    with installed_clock(clock):
-                        tY, bY, _ = run_search(spec2, cfg)  # fresh classes with the new annotations
+
+                    def redeclare(b_):
+                        cls = b_.cls[c["name"]]
+                        tobj = eval(render_type(new, []), b_.module.__dict__)
+                        cls.__init__.__annotations__[c["fields"][i][0]] = tobj
+                        if c["fields"][i][0] in getattr(cls, "__annotations__", {}):
+                            cls.__annotations__[c["fields"][i][0]] = tobj
+
+                    # reference: fresh classes re-declared the same way BEFORE anything was extracted from them (so that only the
+                    # history differs, not the form -- object or string -- in which the annotation is held)
+                    bY = Built(spec)
                     built.append(bY)
+                    redeclare(bY)
+                    with installed_clock(clock):
+                        tY, _, _ = run_search(spec2, cfg, bY, None, clock)
                     bX = Built(spec)  # old annotations first: extraction + a search, then re-declare and search again
                     built.append(bX)
                     with installed_clock(clock):
                         run_search(spec, cfg, bX, None, clock)
-                        cls = bX.cls[c["name"]]
-                        tobj = eval(render_type(new, []), bX.module.__dict__)
-                        cls.__init__.__annotations__[c["fields"][i][0]] = tobj
-                        if c["fields"][i][0] in getattr(cls, "__annotations__", {}):
-                            cls.__annotations__[c["fields"][i][0]] = tobj
+                        redeclare(bX)
                         reset_gene_read_cap(200000)
                         tX, _, _ = run_search(spec2, cfg, bX, None, clock)
                     ctx.faults["carry_over"] += 1
@@ -275,8 +283,8 @@ def run(ctx):
                     if tX != tY:
                         i_, x, y = first_diff(tX, tY)
                         ctx.violate(f"C08/history-dependent/after-redeclaration/{sig_cfg}",
-                                    f"a search on classes whose field {c['name']}.{c['fields'][i][0]} was re-declared after an earlier extraction differs from the same "
-                                    f"seeded search on fresh classes with that declaration, at trace entry {i_}: {x!r} vs {y!r}")
+                                    f"a search on classes whose field {c['name']}.{c['fields'][i][0]} was re-declared after an earlier extraction and search differs from "
+                                    f"the same seeded search on fresh classes re-declared the same way before any extraction, at trace entry {i_}: {x!r} vs {y!r}")
                         return
         # (d) fresh interpreters
         if ctx.run_index % 25 == 3 or (cfg["algo"] == "gp" and cfg["rep"] != "tree" and ctx.run_index % 5 == 1):
